@@ -71,6 +71,10 @@ type Config struct {
 	// itself (type of the frames as nbio reports it, payloads concatenated
 	// until FIN) and records the result as ObsMessage.
 	FramesOnly bool `json:"frames_only,omitempty"`
+	// ObserveClose installs a close handler that records what nbio hands it
+	// (ObsCloseRecv) and then does exactly what nbio's default handler does
+	// (echo the code and reason in a close frame).
+	ObserveClose bool `json:"observe_close,omitempty"`
 }
 
 // ObsKind says what was observed.
@@ -80,6 +84,7 @@ const (
 	ObsMessage  ObsKind = iota // OnMessage(type, payload)
 	ObsPongRecv                // pong handler(payload)
 	ObsFrameOut                // nbio wrote this frame
+	ObsCloseRecv               // close handler(code, reason): Type = code, Data = reason
 )
 
 // Obs is one observation, in order of occurrence.
@@ -293,6 +298,19 @@ func New(cfg Config) *Endpoint {
 	u.SetPongHandler(func(c *websocket.Conn, s string) {
 		e.Obs = append(e.Obs, Obs{Kind: ObsPongRecv, Data: []byte(s), AfterFail: e.Failed()})
 	})
+	if cfg.ObserveClose {
+		u.SetCloseHandler(func(c *websocket.Conn, code int, text string) {
+			e.Obs = append(e.Obs, Obs{Kind: ObsCloseRecv, Type: code, Data: []byte(text), AfterFail: e.Failed()})
+			if code == 1005 {
+				_ = c.WriteMessage(websocket.CloseMessage, nil)
+				return
+			}
+			buf := make([]byte, len(text)+2)
+			buf[0], buf[1] = byte(code>>8), byte(code)
+			copy(buf[2:], text)
+			_ = c.WriteMessage(websocket.CloseMessage, buf)
+		})
+	}
 	u.OnClose(func(c *websocket.Conn, err error) {
 		e.OnCloseCalls++
 		e.OnCloseErr = err
